@@ -49,6 +49,22 @@ CHECKS = {
          "other",
          "Schedules and the runtime's locking are out of reach of static analysis of this repository. Decided instead, for every instantiated valuation: the generated code declares no package variable, the container struct holds only the embedded runtime container, no function or closure writes to captured/receiver/shared storage, and default-scope services are registered with SetScopeDefault. Hence the generated code adds no shared mutable state and any race would be inside gontainer-helpers.",
          "DESIGN.md §4 C20"),
+ "C02": ("call-sequence extraction from every type-checked template instantiation compared with the declared shape (origin-marked representatives), order-preservation and loop-exit lints over the compiler, receiver-state lint over resolvers/factories, who-may-sort table",
+         "other",
+         "The statement is about objects at run time; decided are the generator-side necessary conditions: each instantiated service block registers exactly the declared creation method, arguments, fields, calls/withers in declared order and then the service; the compiler preserves element order and visits every element; resolvers keep no state between arguments. What the runtime does with the registration is trusted.",
+         "DESIGN.md §4 C02"),
+ "C04": ("emission of s.Tag / c.AddDecorator in every type-checked instantiation, order-preservation lints, merge wiring (append class) for tags and decorators, SSA provenance of Tag.UnmarshalYAML",
+         "other",
+         "Run-time ordering of tagged services and decorator application are the runtime library's. Decided: tag name/priority and decorators reach the runtime calls unchanged, complete and in declaration order (one Tag per tag for every creation method, one AddDecorator per decorator after all services), across files they are appended in file order, and nothing in the module sorts them.",
+         "DESIGN.md §4 C04"),
+ "C05": ("enum-chain check (keyword literal -> input constant -> exhaustive switch -> output constant -> template predicate -> runtime setter) with the last links decided on the type-checked instantiations; SSA guards of the scope validator's single error site; wiring reachability; loop-exit and freshness lints over the dependency graph builder",
+         "other",
+         "Instance identity over Get histories is the runtime's. Decided: each scope keyword (and unset) reaches its own existing runtime setter for every instantiated shape; the validator raises exactly one error kind, only for shared-on-contextual, inspects every dependency of the full graph, is wired in and cannot be switched off; typed InContext getters pass their context on.",
+         "DESIGN.md §4 C05"),
+ "C15": ("todo emission on the type-checked instantiations, call-position analysis of the generated constructor (laziness), AST error-discipline lint of generated helpers, SSA shape of the todo branch, constants of the built-in function table, merge wiring of the todo flag",
+         "other",
+         "Override histories are the runtime's. Decided: a todo service/parameter compiles to an always-failing constructor/provider with the documented message and is still registered; todo entries count as declared; nothing user-supplied is evaluated while the container is constructed (only registration calls occur outside closures); generated helpers cannot swallow an error; a later file's todo overrides an earlier one.",
+         "DESIGN.md §4 C15"),
 }
 NOT_YET = "check not built yet in this session (design in DESIGN.md §4); will be claimed once its rules run on /repo"
 
